@@ -31,8 +31,11 @@ MANIFEST_ENTRY = {
 MODULE = "LdarModel.Props.C14"
 FILE = "LdarModel/Props/C14.lean"
 
-POOL = ["P_A", "P_OGI_2", "A", "A_1", "unkept", "P_Logs", "x_12_y", "P_7_", "alt-FWA", "Prog.B", "P_kept_late", "B2"]
+POOL = ["P_A", "P_OGI_2", "A", "A_1", "unkept", "P_Logs", "x_12_y", "P_7_", "alt-FWA", "Prog.B", "P_kept_late", "B2",
+        "NA", "nan", "007"]
 RESERVED = ["keptA", "kept", "Logs"]
+# names pandas' read_csv takes for missing values / numbers when a summary file is read back
+NA_LIKE = ["NA", "None", "nan", "null", "NULL", "NaN", "<NA>"]
 
 
 # ----------------------------------------------------------------------------------------------
@@ -134,15 +137,14 @@ def gen_files(rng, years, with_est, quirk=False):
     return f
 
 
-def gen_world(rng, n=None, reserved=None, quirk=False):
+def gen_world(rng, n=None, reserved=None, quirk=False, base="P_none", est_without_rep=False):
     y0 = rng.choice([2022, 2023, 2024])
     years = list(range(y0, y0 + rng.choice([1, 1, 2, 3])))
     k = rng.choice([1, 2, 2, 3])
     progs = rng.sample(POOL, k)
     if reserved:
         progs[-1] = reserved
-    base = "P_none"
-    programs = [base] + progs
+    programs = [base] + [p for p in progs if p != base]
     rng.shuffle(programs)
     if n is None:
         n = rng.randint(1, 12)
@@ -152,6 +154,8 @@ def gen_world(rng, n=None, reserved=None, quirk=False):
         for s in range(n):
             with_est = has_est[p] and rng.random() < 0.9
             files["%s|%d" % (p, s)] = gen_files(rng, years, with_est, quirk=quirk and p != base)
+            if est_without_rep and files["%s|%d" % (p, s)]["est"] is not None and rng.random() < 0.5:
+                files["%s|%d" % (p, s)]["rep"] = None
             if rng.random() < 0.3:
                 extras["%s|%d" % (p, s)] = [rng.choice(["timeseries.png", "notes.txt", "timeseries.csv.bak"])]
     return {"programs": programs, "baseline": base, "n": n, "keep_all": rng.random() < 0.5, "years": years,
@@ -197,6 +201,8 @@ def model_lines(world, result):
     lines = ["reset %s %d %d" % (enc_list(map(str, world["years"])), k.numerator, k.denominator)]
     tags = [("expect", "ok")]
     made = set()
+    crashed = False
+    sw = switches(world)
     if world.get("logs", True):
         lines.append("mkdir Logs")
         tags.append(("expect", "ok"))
@@ -212,6 +218,11 @@ def model_lines(world, result):
             for kind, name in written:
                 lines.append("put %s %s %s %s" % (p, name, kind, enc_rows(kind, f.get(kind))))
                 tags.append(("expect", "ok"))
+        elif ev[0] == "gen-crash":
+            # the real call raised: the model must flag the same folders (any enumeration order)
+            lines.append("gen %d auto" % (1 if ev[1] else 0))
+            tags.append(("expect", "crash:empty-file"))
+            crashed = True
         else:
             _, clear, calls, snap = ev
             top = calls[0]
@@ -225,9 +236,14 @@ def model_lines(world, result):
                 while i < len(rest) and rest[i][0] == d:
                     grp.append(rest[i][1])
                     i += 1
-                if len(grp) != 5:
+                # scans per folder: [TS] if enabled, [EMIS, EST, REP] if enabled, then mark/clear
+                want = (1 if sw["ts"] else 0) + (3 if sw["emis"] else 0) + 1
+                if len(grp) != want:
                     raise core.InfraError("unexpected scandir pattern for %s: %d calls" % (d, len(grp)))
-                visit.append(enc_list([d] + [enc_list(x) for x in grp]))
+                mark = grp[-1]
+                tsl = grp[0] if sw["ts"] else mark
+                eml = grp[1 if sw["ts"] else 0:-1] if sw["emis"] else [mark, mark, mark]
+                visit.append(enc_list([d] + [enc_list(x) for x in [tsl] + eml + [mark]]))
             lines.append("gen %d %s" % (1 if clear else 0, enc_list(visit)))
             tags.append(("expect", "ok"))
             for q, tag in (("table ts", "ts"), ("table emis", "emis"), ("dirs", "dirs")):
@@ -239,8 +255,9 @@ def model_lines(world, result):
     for p in nb:
         gw, ng = Fraction(world["econ"][p][0]), Fraction(world["econ"][p][1])
         econ.append("[%s,%d,%d,%d,%d]" % (p, gw.numerator, gw.denominator, ng.numerator, ng.denominator))
-    lines.append("cost %s %s" % (enc_list(nb), enc_list(econ)))
-    tags.append(("cost", None))
+    if not crashed and sw["cost"]:
+        lines.append("cost %s %s" % (enc_list(nb), enc_list(econ)))
+        tags.append(("cost", None))
     # the function the theorems are about (`runAll`: whole batch loop over the world) on the same world
     lines.append(lines[0])
     tags.append(("expect", "ok"))
@@ -254,11 +271,17 @@ def model_lines(world, result):
             tags.append(("expect", "ok"))
     lines.append("runall %s %d %d %d" % (enc_list(world["programs"]), world["n"], 1 if world["keep_all"] else 0,
                                           world["n"] % 2))
-    tags.append(("expect", "ok"))
-    for q, tag in (("table ts", "run-ts"), ("table emis", "run-emis"), ("dirs", "run-dirs")):
-        lines.append(q)
-        tags.append((tag, None))
+    tags.append(("expect", "crash:empty-file" if crashed else "ok"))
+    if not crashed:
+        for q, tag in (("table ts", "run-ts"), ("table emis", "run-emis"), ("dirs", "run-dirs")):
+            lines.append(q)
+            tags.append((tag, None))
     return lines, tags
+
+
+def switches(world):
+    sw = world.get("summary_files") or {}
+    return {"ts": sw.get("ts", True), "emis": sw.get("emis", True), "cost": sw.get("cost", True)}
 
 
 _PCT = {}
@@ -352,6 +375,8 @@ def correspond(ctx, world, result, replies, tags, inp):
             if reply != arg:
                 ctx.disagree("summary/protocol", inp, reply, arg)
                 ok = False
+        elif tag in ("ts", "emis", "run-ts", "run-emis") and not switches(world)[tag[-2:] if tag.endswith("ts") else "emis"]:
+            continue  # that summary file is switched off: nothing to compare
         elif tag in ("ts", "emis"):
             snap = gens[arg][3]
             mt = parse_model_table(reply)
@@ -548,9 +573,19 @@ def oracle(ctx, world, result, inp, second=None):
 
     ts_cols, em_cols = table_cols(world)
     n = world["n"]
+    sw = switches(world)
+    if result["error"] and result["error"].startswith("gen:"):
+        zero = sorted("%s:%s" % (k, kind) for k, f in world["files"].items() for kind in ("ts", "emis", "est")
+                      if f.get(kind) == [])
+        sig = "C14:crash:zero-row-file" if zero else "C14:crash:summarisation"
+        ctx.violate(sig, "gen_summary_outputs raised %s: no summary file has any row of this batch or any later one "
+                         "(files without data rows: %s)" % (result["error"][4:], zero[:3]), inp)
+        return
     want = sorted((p, str(s)) for p in world["programs"] for s in range(n))
     tables = {"ts": impl_table(result["final"]["ts"], ts_cols), "emis": impl_table(result["final"]["emis"], em_cols)}
     for name, t in tables.items():
+        if not sw[name]:
+            continue
         keys = sorted(k for k, _ in t)
         if keys != want:
             once_each_violation(ctx, name, keys, want, inp)
@@ -576,7 +611,9 @@ def oracle(ctx, world, result, inp, second=None):
             ctx.count("oracle_rows")
     # cost summary
     nb = [p for p in world["programs"] if p != world["baseline"]]
-    if result["error"] is None:
+    if not sw["cost"]:
+        pass
+    elif result["error"] is None:
         ct = impl_table(result["final"]["cost"], cost_cols())
         wantc = sorted((p, str(s)) for p in nb for s in range(n))
         keys = sorted(k for k, _ in ct)
@@ -611,6 +648,8 @@ def oracle(ctx, world, result, inp, second=None):
     # enumeration-order independence: a second run with another order of every listing
     if second is not None:
         for name, cols in (("ts", ts_cols), ("emis", em_cols), ("cost", cost_cols())):
+            if not sw[name]:
+                continue
             a = impl_table(result["final"][name], cols)
             b = impl_table(second["final"][name], cols)
             if a != b:
@@ -725,6 +764,34 @@ def run(ctx):
     for _ in range(ctx.pick(2, 12)):
         w = gen_world(ctx.rng, n=ctx.rng.choice([1, 2, 6]), quirk=True)
         worlds.append((w, ctx.rng.randrange(10 ** 6), "open-ended"))
+    # program names read_csv would take for missing values / numbers when a summary is read back
+    for name in (NA_LIKE if not ctx.quick else ctx.rng.sample(NA_LIKE, 3)):
+        w = gen_world(ctx.rng, n=ctx.rng.choice([1, 6, 11]), reserved=name)
+        worlds.append((w, ctx.rng.randrange(10 ** 6), "na-like-name"))
+    for _ in range(ctx.pick(1, 4)):
+        w = gen_world(ctx.rng, n=ctx.rng.choice([1, 6, 7]), reserved=ctx.rng.choice(["007", "12", "1e3", "0x1F"]),
+                      base=ctx.rng.choice(["0", "5", "2024"]))
+        worlds.append((w, ctx.rng.randrange(10 ** 6), "numeric-names"))
+    # files without data rows: the real code raises (recorded finding); the model must flag the same worlds
+    for kind in (["ts", "emis", "est"] if not ctx.quick else ["emis", ctx.rng.choice(["ts", "est"])]):
+        for _ in range(ctx.pick(1, 3)):
+            w = gen_world(ctx.rng, n=ctx.rng.choice([1, 3, 6, 7]))
+            cands = sorted(k for k, f in w["files"].items() if f.get(kind) is not None)
+            if cands:
+                w["files"][ctx.rng.choice(cands)][kind] = []
+                worlds.append((w, ctx.rng.randrange(10 ** 6), "zero-rows"))
+    # switches the model does not have: one summary file only, the multiprocessing loop; estimate without correction
+    for sf in ({"ts": True, "emis": False, "cost": False}, {"ts": False, "emis": True, "cost": False}):
+        w = gen_world(ctx.rng, n=ctx.rng.choice([2, 6, 7]))
+        w["summary_files"] = sf
+        worlds.append((w, ctx.rng.randrange(10 ** 6), "one-summary-file"))
+    for _ in range(ctx.pick(1, 3)):
+        w = gen_world(ctx.rng, n=ctx.rng.choice([2, 6, 11]))
+        w["multiprocessing"] = True
+        worlds.append((w, ctx.rng.randrange(10 ** 6), "multiprocessing-loop"))
+    for _ in range(ctx.pick(1, 4)):
+        w = gen_world(ctx.rng, n=ctx.rng.choice([2, 6]), est_without_rep=True)
+        worlds.append((w, ctx.rng.randrange(10 ** 6), "estimate-without-correction"))
 
     all_lines, slices, runs = [], [], []
     for (w, seed, kind) in worlds:
@@ -740,8 +807,8 @@ def run(ctx):
         oracle(ctx, w, r1, inp, second=r2)
         ctx.evaluations += 1
         ctx.traces += 1
-        if r1["final"]["ts"]:
-            ctx.nontrivial.add(nontrivial_key(w, r1))
+        if r1["final"]["ts"] or r1["final"]["emis"]:
+            ctx.nontrivial.add(nontrivial_key(w, r1) + (kind.split(":")[0],))
         ctx.count("kind:" + kind.split(":")[0])
         ctx.count("n=%d" % w["n"])
         ctx.count("retention:" + ("keep-all" if w["keep_all"] else "clear-later-batches"))
